@@ -1346,6 +1346,169 @@ def run_vlt(ctx, kw, gseed, fam, nseg=2):
 
 
 # ---------------------------------------------------------------------------------------------
+# the simple telescope pupils as compositions of the modelled makers: Magellan, Hale, HabEx, HST
+# (the recipe of realistic.py is transcribed here as a model shape tree from the generic makers' own tokens, so
+# that these pupils are instances of the generic theorems fast_path_eq_inside / polar_path_eq_inside — and the
+# transcription is checked against the running code on every representation)
+
+RECIPE_PUPILS = [
+    ('make_magellan_aperture', {}), ('make_magellan_aperture', {'normalized': True}), ('make_magellan_aperture', {'with_spiders': False}),
+    ('make_hale_aperture', {}), ('make_hale_aperture', {'normalized': True}), ('make_hale_aperture', {'normalized': True, 'with_spiders': False}),
+    ('make_habex_aperture', {}), ('make_habex_aperture', {'normalized': True}),
+    ('make_hst_aperture', {}), ('make_hst_aperture', {'normalized': True}), ('make_hst_aperture', {'with_pads': False}),
+    ('make_hst_aperture', {'normalized': True, 'with_spiders': False}),
+]
+
+
+def recipe_pupil(name, kw):
+    """-> (model tokens, pupil diameter, feature points worth zooming in on); constants and arithmetic as in realistic.py"""
+    def toks(spec):
+        return build(spec)[1]
+
+    def mul(parts):
+        out = parts[0]
+        for p in parts[1:]:
+            out = ['mul'] + out + p
+        return out
+    normalized = kw.get('normalized', False)
+    with_spiders = kw.get('with_spiders', True)
+    if name == 'make_magellan_aperture':
+        pupil_diameter = 6.5
+        spider_width1 = 0.75 * 0.0254
+        spider_width2 = 1.5 * 0.0254
+        central_obscuration_ratio = 0.29
+        spider_offset = np.array([0.34, 0.0])
+        if normalized:
+            spider_width1 /= pupil_diameter
+            spider_width2 /= pupil_diameter
+            spider_offset /= pupil_diameter
+            pupil_diameter = 1.0
+        parts = [toks(['obstructed', pupil_diameter, central_obscuration_ratio, 0, 0.01])]
+        feats = [[0.0, 0.0]]
+        if with_spiders:
+            for off, deg, w in ((-spider_offset, 45.0, spider_width1), (-spider_offset, -45.0, spider_width1),
+                                (spider_offset, 45.0 + 180.0, spider_width2), (spider_offset, -45.0 + 180.0, spider_width2)):
+                parts.append(toks(['spiderinf', [float(off[0]), float(off[1])], deg, w]))
+                a = np.radians(deg)
+                feats += [[float(off[0]), float(off[1])], [float(off[0] + 0.3 * pupil_diameter * np.cos(a)), float(off[1] + 0.3 * pupil_diameter * np.sin(a))]]
+        return mul(parts), pupil_diameter, feats
+    if name == 'make_hale_aperture':
+        pupil_diameter = 5.08
+        central_obscuration_diameter = 1.86
+        spider_width = 2 * 0.024
+        central_obscuration_ratio = central_obscuration_diameter / pupil_diameter
+        box_heigth = 2 * 0.06
+        box_width = 2 * 0.0932 + central_obscuration_diameter
+        if normalized:
+            spider_width /= pupil_diameter
+            box_heigth /= pupil_diameter
+            box_width /= pupil_diameter
+            pupil_diameter = 1.0
+        ob = ['obstructed', pupil_diameter, central_obscuration_ratio, 4, spider_width] if with_spiders else ['obstructed', pupil_diameter, central_obscuration_ratio, 0, 0.01]
+        parts = [toks(ob), toks(['obstruction', ['rect', [box_width, box_heigth], None]]), toks(['obstruction', ['rect', [box_heigth, box_width], None]])]
+        feats = [[box_width / 2, 0.0], [0.0, box_width / 2], [-box_width / 2, box_heigth / 2], [0.3 * pupil_diameter, 0.0], [0.0, -0.3 * pupil_diameter]]
+        return mul(parts), pupil_diameter, feats
+    if name == 'make_habex_aperture':
+        pupil_diameter = 4.0
+        if normalized:
+            pupil_diameter = 1
+        return toks(['circle', pupil_diameter, None]), float(pupil_diameter), [[pupil_diameter / 2, 0.0]]
+    if name == 'make_hst_aperture':
+        pupil_diameter = 2.4
+        secondary_obscuration_ratio = 0.330
+        spider_width = 0.022 / 2
+        pad_v3 = np.array([0.8921, -0.4615, -0.4564]) / 2
+        pad_v2 = np.array([0.0000, 0.7555, -0.7606]) / 2
+        pad_radii = np.array([0.065, 0.065, 0.065]) / 2
+        if normalized:
+            pupil_diameter = 1
+        else:
+            spider_width *= pupil_diameter
+            pad_v3 *= pupil_diameter
+            pad_v2 *= pupil_diameter
+            pad_radii *= pupil_diameter
+        parts = [toks(['obstructed', pupil_diameter, secondary_obscuration_ratio, 4 if with_spiders else 0, spider_width])]
+        feats = [[0.3 * pupil_diameter, 0.0], [0.0, 0.3 * pupil_diameter]]
+        if kw.get('with_pads', True):
+            for v3, v2, r in zip(pad_v3, pad_v2, pad_radii):
+                parts.append(toks(['obstruction', ['circle', float(2 * r), [float(-v2), float(v3)]]]))
+                feats.append([float(-v2), float(v3)])
+        return mul(parts), float(pupil_diameter), feats
+    raise MachineryError('recipe_pupil: %r' % (name,))
+
+
+def run_recipe(ctx, name, kw, gseed, fam):
+    """a simple telescope pupil against its recipe evaluated by the model (eval sep | pts | polar), on every representation;
+    half of the grids zoom in on a feature (spider, pad, box corner) so that thin structures are resolved"""
+    import hcipy
+    rng = np.random.default_rng(gseed)
+    with warnings.catch_warnings():
+        warnings.simplefilter('ignore')
+        gen = getattr(hcipy, name)(**kw)
+    toks, D, feats = recipe_pupil(name, kw)
+    short = name[len('make_'):-len('_aperture')]
+    if rng.random() < 0.5 and not fam.startswith('polar'):
+        c = feats[int(rng.integers(0, len(feats)))]
+        half = D * 10 ** float(rng.uniform(-2.3, -1.0))
+        ctx.count('recipe-grid:zoomed')
+    else:
+        c = [0.0, 0.0]
+        half = 0.55 * D * float(rng.uniform(0.15, 1.1))
+        ctx.count('recipe-grid:whole')
+    gspec = gen_grid_family(rng, fam, nmax=11, half=half, centre=(c[0], c[1]), exact=False)
+    reps, xs, ys, sep = make_reps(gspec)
+    scale = scale_of(xs, ys, D)
+    case = {'kind': 'recipe', 'name': name, 'kw': kw, 'gseed': int(gseed), 'fam': fam, 'grid': gspec}
+    tol = rat(REL_TOL * scale)
+    res, fails = oracle(ctx, 'pupil:' + short, gen, reps, xs, ys, scale, {0.0, 1.0}, True)
+    for key, what in fails:
+        ctx.violation(key, what + ' [%r]' % (kw,), case)
+    nz = [v for v in res.values() if v is not None]
+    mixed = bool(nz) and 0 < np.count_nonzero(nz[0]) < len(xs)
+    ctx.case(None, ('recipe', short, tuple(sorted(kw.items())), fam, len(xs), int(np.count_nonzero(nz[0]))) if mixed else None)
+    ctx.count('recipe-cases:' + short)
+    ctx.count('recipe-field:' + ('mixed' if mixed else 'constant'))
+    lines = []
+    if sep is not None:
+        lines.append(('sep', 'C12 eval sep %s %s %s %s' % (tol, rat_list(sep[0]), rat_list(sep[1]), ' '.join(toks))))
+    lines.append(('pts', 'C12 eval pts %s %s %s %s' % (tol, rat_list(xs), rat_list(ys), ' '.join(toks))))
+    if reps.get('polar') is not None:
+        lines.append(('polar', polar_request('eval', tol, reps['polar'], ' '.join(toks))))
+
+    def check(out):
+        for (mode, req), resp in zip(lines, out):
+            parts = resp.split(' ')
+            if parts[0] != 'ok':
+                ctx.disagree('C12 recipe ' + mode, {'case': case, 'model': resp[:80]})
+                continue
+            mv, near = _rats(parts[1]), _bits(parts[2])
+            if parts[3] != '1':
+                ctx.disagree('C12 model-self', {'case': case, 'detail': 'code-path model differs from point semantics', 'mode': mode})
+            names = (('regular', 'separated', 'separated-indep') if mode == 'sep' else ('polar', 'polar-separated') if mode == 'polar'
+                     else ('unstructured', 'unstructured-indep', 'polar', 'polar-separated'))
+            for nm in names:
+                rv = res.get(nm)
+                if rv is None:
+                    continue
+                ctx.traces_validated += 1
+                if len(mv) != len(rv):
+                    ctx.disagree('C12 recipe ' + mode, {'case': case, 'detail': 'length', 'model': len(mv), 'impl': len(rv)})
+                    continue
+                for i in range(len(rv)):
+                    if near[i]:
+                        ctx.boundary_skipped += 1
+                        ctx.count('model-boundary-skipped')
+                        continue
+                    ctx.count('points-compared')
+                    ctx.count('recipe-points-compared')
+                    if abs(mv[i] - rv[i]) > 1e-9:
+                        ctx.disagree('C12 recipe ' + mode, {'case': case, 'rep': nm, 'index': i, 'point': [float(xs[i]), float(ys[i])],
+                                                            'model': mv[i], 'impl': float(rv[i])}, key='recipe:%s:model:%s' % (short, rep_class(nm)))
+                        break
+    return [l for _, l in lines], check
+
+
+# ---------------------------------------------------------------------------------------------
 # evaluate_supersampled: where it is defined, and which exception otherwise (model: supersampled_defined_iff)
 
 SUPER_ERROR_CASES = [
@@ -1681,6 +1844,15 @@ def run(ctx):
                 l, chk = run_vlt(ctx, kw, int(ctx.rng.integers(0, 2 ** 31)), fam, nseg=ctx.scale(1, 2))
                 checks.append((len(lines), len(l), chk))
                 lines += l
+    # the simple telescope pupils as compositions of the modelled makers
+    for _ in range(ctx.scale(1, 4)):
+        for name, kw in RECIPE_PUPILS:
+            for fam in FAMILIES:
+                if ctx.quick() and ctx.rng.random() < 0.8:
+                    continue
+                l, chk = run_recipe(ctx, name, kw, int(ctx.rng.integers(0, 2 ** 31)), fam)
+                checks.append((len(lines), len(l), chk))
+                lines += l
     check_hexqr(ctx)
     run_super_errors(ctx)
     run_super_stats(ctx)
@@ -1767,6 +1939,8 @@ def replay(ctx, case):
         run_keck(ctx, case['kw'], case['gseed'], case['fam'])
     elif case.get('kind') == 'vlt':
         run_vlt(ctx, case['kw'], case['gseed'], case['fam'], case.get('nseg', 2))
+    elif case.get('kind') == 'recipe':
+        run_recipe(ctx, case['name'], case['kw'], case['gseed'], case['fam'])
     elif case.get('kind') == 'super-stat':
         super_stat_case(ctx, case['grid'], case['shape'], case['over'], want_model=False)
     elif case.get('kind') == 'pupil':
